@@ -14,6 +14,7 @@ import (
 // commonObligations are the fail-closed loader obligations shared by all properties (DESIGN §E0).
 func commonObligations(p *Prog, r *Report) {
 	keeperBindingObligation(p, r)
+	mutationDiscipline(p, r)
 	// 1. every non-test .go file on disk under x/cctp is compiled into a loaded package
 	compiled := map[string]bool{}
 	for _, path := range modulePkgs {
